@@ -14,6 +14,7 @@ func init() {
 		}
 		*l = append(*l, &Job{Pkg: "", Func: "ZZ_C18_NonBlockingLive", Args: []int64{q, 2, 1*8 + 0}, Bounds: b})
 		thorough = append(thorough, &Job{Pkg: "", Func: "ZZ_C18_NonBlockingLive", Args: []int64{q, 3, 2*64 + 1*8 + 0}, Bounds: b})
+		*l = append(*l, &Job{Pkg: "", Func: "ZZ_C18_Blocking", Args: []int64{q, 4, q % 2}, Bounds: b + "; scenario 4: Close is pending behind the stalled sender when the waiting caller's context ends"})
 		for sc := int64(0); sc < 4; sc++ {
 			*l = append(*l, &Job{Pkg: "", Func: "ZZ_C18_Blocking", Args: []int64{q, sc, (q + sc) % 5}, Bounds: b})
 			thorough = append(thorough, &Job{Pkg: "", Func: "ZZ_C18_Blocking", Args: []int64{q, sc, (q + sc + 1) % 5}, Bounds: b})
